@@ -509,3 +509,156 @@ Proof.
     rewrite Ha. unfold authenticate in Hn. destruct (authn_method ac x); simpl in *; auto; discriminate.
   - destruct (lookup w st i); [contradiction|]. auto.
 Qed.
+
+(* ---- the decision procedure of the specification ---- *)
+Lemma identifies_b_iff g rq i : identifies_b g rq i = true <-> identifies g rq i.
+Proof.
+  unfold identifies_b, identifies.
+  rewrite !andb_true_iff, !orb_true_iff, !N.eqb_eq, negb_true_iff, N.eqb_neq.
+  assert (Hb : match rq_basic rq with Some (b, _) => N.eqb b 0 || N.eqb b i | None => true end = true
+               <-> (forall b s, rq_basic rq = Some (b, s) -> b = 0 \/ b = i)).
+  { destruct (rq_basic rq) as [[b s]|].
+    - rewrite orb_true_iff, !N.eqb_eq. split; [intros H b' s' E; injection E as <- <-; auto | intro H; eapply H; eauto].
+    - split; auto; discriminate. }
+  assert (Ha : match rq_assertion rq with
+               | ANone => true | AGarbage => false
+               | AJws a => (alg_in (as_alg a) (ag_pk_algs g) || alg_in (as_alg a) (ag_sj_algs g)) &&
+                           match as_iss a with Some k => N.eqb k i | None => false end end = true
+               <-> match rq_assertion rq with
+                   | ANone => True | AGarbage => False
+                   | AJws a => (In (as_alg a) (ag_pk_algs g) \/ In (as_alg a) (ag_sj_algs g)) /\ as_iss a = Some i end).
+  { destruct (rq_assertion rq) as [| |a]; try tauto; [split; [discriminate|tauto]|].
+    rewrite andb_true_iff, orb_true_iff, !alg_in_In.
+    destruct (as_iss a) as [k|]; [rewrite N.eqb_eq|]; split; intros [H1 H2]; split; auto; try congruence; discriminate. }
+  assert (Hc : match rq_basic rq with Some (b, _) => negb (N.eqb b 0) | None => false end = true
+               <-> exists b s, rq_basic rq = Some (b, s) /\ b <> 0).
+  { destruct (rq_basic rq) as [[b s]|].
+    - rewrite negb_true_iff, N.eqb_neq. split; [intro H; eauto | intros (b' & s' & E & H); injection E as <- <-; auto].
+    - split; [discriminate | intros (b' & s' & E & H); discriminate]. }
+  assert (Hd : match rq_assertion rq with ANone => false | _ => true end = true <-> rq_assertion rq <> ANone).
+  { destruct (rq_assertion rq); split; auto; try discriminate; congruence. }
+  rewrite Hb, Ha, Hc, Hd. tauto.
+Qed.
+
+Lemma accepted_audience_b_iff g v : accepted_audience_b g v = true <-> accepted_audience g v.
+Proof. apply aud_accepted_spec. Qed.
+
+Lemma claims_valid_b_iff g c rq a : claims_valid_b g c rq a = true <-> claims_valid g c rq a.
+Proof.
+  unfold claims_valid_b, claims_valid. rewrite !andb_true_iff, N.eqb_eq.
+  assert (H1 : match as_iss a with Some k => N.eqb k (ca_id c) | None => false end = true <-> as_iss a = Some (ca_id c)).
+  { destruct (as_iss a); [rewrite N.eqb_eq|]; split; intro H; try congruence; discriminate. }
+  assert (H2 : existsb (accepted_audience_b g) (as_aud a) = true <-> exists v, In v (as_aud a) /\ accepted_audience g v).
+  { rewrite existsb_exists. split; intros (v & Hv1 & Hv2); exists v; split; auto; apply accepted_audience_b_iff; auto. }
+  assert (H3 : match as_exp a with Some d => Z.leb (- ag_leeway g) d && Z.leb d (ag_lifetime g) | None => false end = true
+               <-> exists d, as_exp a = Some d /\ (- ag_leeway g <= d)%Z /\ (d <= ag_lifetime g)%Z).
+  { destruct (as_exp a) as [d|].
+    - rewrite andb_true_iff, !Z.leb_le. split; [intro H; eauto | intros (d' & E & H); injection E as <-; auto].
+    - split; [discriminate | intros (d' & E & _); discriminate]. }
+  assert (H4 : forall o, match o with Some n => Z.leb n (ag_leeway g) | None => true end = true
+               <-> forall n : Z, o = Some n -> (n <= ag_leeway g)%Z).
+  { intros [n|]; [rewrite Z.leb_le|]; split; auto; try discriminate.
+    - intros H n' E; injection E as <-; auto. }
+  rewrite H1, H2, H3, (H4 (as_nbf a)), (H4 (as_iat a)). tauto.
+Qed.
+
+Lemma permitted_alg_b_iff s c x a : permitted_alg_b s c x a = true <-> permitted_alg s c x a.
+Proof.
+  unfold permitted_alg_b, permitted_alg. destruct (pinned_alg c x); [apply alg_eqb_eq|apply alg_in_In].
+Qed.
+
+Lemma designated_b_iff j a : designated_b j a = true <-> designated j a.
+Proof.
+  unfold designated_b, designated. destruct (N.eqb (as_kid a) 0) eqn:E; reflect_ids.
+  - rewrite opt_alg_eqb_eq. split; [intro H; right; auto | intros [[H _]|[_ H]]; [congruence|auto]].
+  - rewrite N.eqb_eq. split; [intro H; left; auto | intros [[_ H]|[H _]]; [auto|congruence]].
+Qed.
+
+Lemma tls_subject_matches_b_iff c ct : tls_subject_matches_b c ct = true <-> tls_subject_matches c ct.
+Proof.
+  unfold tls_subject_matches_b, tls_subject_matches.
+  destruct (is_empty (ca_tls_dn c)) eqn:E1; simpl.
+  - apply is_empty_spec in E1. destruct (is_empty (ca_tls_dns c)) eqn:E2; simpl.
+    + apply is_empty_spec in E2. destruct (ca_tls_ip c) as [| |ip] eqn:E3.
+      * split; [discriminate|]. intros [(H & _)|[(_ & H & _)|(_ & _ & ip & H & _)]]; congruence.
+      * split; [discriminate|]. intros [(H & _)|[(_ & H & _)|(_ & _ & ip & H & _)]]; congruence.
+      * rewrite memN_In. split; [intro H; right; right; eauto|].
+        intros [(H & _)|[(_ & H & _)|(_ & _ & ip' & H & H')]]; try congruence; try (injection H as <-; auto).
+    + assert (ca_tls_dns c <> "") by (intro HH; apply is_empty_spec in HH; congruence).
+      rewrite mem_In. split; [intro H0; right; left; auto|].
+      intros [(H0 & _)|[(_ & _ & H0)|(_ & H0 & _)]]; try congruence; auto.
+  - assert (ca_tls_dn c <> "") by (intro HH; apply is_empty_spec in HH; congruence).
+    rewrite seqb_eq. split; [intro H0; left; auto|].
+    intros [(_ & H0)|[(H0 & _)|(H0 & _)]]; try congruence; auto.
+Qed.
+
+Ltac splits := repeat (split; [solve [auto]|]); auto.
+
+Lemma method_credential_b_iff g x c rq : method_credential_b g x c rq = true <-> method_credential g x c rq.
+Proof.
+  unfold method_credential_b, method_credential.
+  destruct (registered_method c x); try tauto; try (split; [discriminate|tauto]).
+  - (* basic *)
+    destruct (rq_basic rq) as [[b s]|].
+    + rewrite andb_true_iff, N.eqb_eq. destruct (ca_hashed c) as [h|].
+      * rewrite N.eqb_eq. split; [intros [-> ->]; eauto | intros (s' & E & H); injection E as -> ->; injection H as ->; auto].
+      * split; [intros [_ H]; discriminate | intros (s' & _ & H); discriminate].
+    + split; [discriminate | intros (s' & H & _); discriminate].
+  - (* post *)
+    rewrite !andb_true_iff, N.eqb_eq, negb_true_iff, N.eqb_neq.
+    destruct (ca_hashed c) as [h|].
+    + rewrite N.eqb_eq. split; intros (H1 & H2 & H3); splits; congruence.
+    + split; intros (H1 & H2 & H3); discriminate.
+  - (* secret jwt *)
+    rewrite andb_true_iff. destruct (rq_assertion rq) as [| |a].
+    + split; [intros [_ H]; discriminate | intros (_ & a & H & _); discriminate].
+    + split; [intros [_ H]; discriminate | intros (_ & a & H & _); discriminate].
+    + rewrite !andb_true_iff, permitted_alg_b_iff, alg_eqb_eq, claims_valid_b_iff.
+      assert (Hs : match as_signer a with SHmac (BSecret s) => N.eqb s (ca_secret c) | _ => false end = true
+                   <-> as_signer a = SHmac (BSecret (ca_secret c))).
+      { destruct (as_signer a) as [k|[s|k]|]; try (split; [discriminate|congruence]).
+        rewrite N.eqb_eq. split; [intros ->; auto | intro H; injection H; auto]. }
+      rewrite Hs. split.
+      * intros (H1 & H2 & H3 & H4 & H5 & H6). split; auto. exists a. splits.
+      * intros (H1 & a' & E & H2 & H3 & H4 & H5 & H6). injection E as <-. splits.
+  - (* private key jwt *)
+    rewrite andb_true_iff. destruct (rq_assertion rq) as [| |a].
+    + split; [intros [_ H]; discriminate | intros (_ & a & ks & j & H & _); discriminate].
+    + split; [intros [_ H]; discriminate | intros (_ & a & ks & j & H & _); discriminate].
+    + destruct (registered_keys c rq) as [ks|].
+      * rewrite !andb_true_iff, permitted_alg_b_iff, claims_valid_b_iff, existsb_exists. split.
+        -- intros (H1 & H2 & (j & Hj & Hf) & H3). rewrite !andb_true_iff, designated_b_iff in Hf.
+           destruct Hf as (F1 & F2 & F3 & F4). split; auto. exists a, ks, j. splits.
+           destruct (as_signer a); try discriminate. apply N.eqb_eq in F3. subst; auto.
+        -- intros (H1 & a' & ks' & j & E & H2 & E2 & Hj & Hd & Hp & Hs & Hf & Hc).
+           injection E as <-. injection E2 as <-. splits. split; auto. exists j. split; auto.
+           rewrite !andb_true_iff, designated_b_iff, Hs, N.eqb_eq. auto.
+      * split; [intros [_ H]; discriminate | intros (_ & a' & ks & j & _ & _ & H & _); discriminate].
+  - (* tls *)
+    rewrite andb_true_iff, N.eqb_eq. unfold presented_cert_b, presented_cert.
+    destruct (ag_cert_func g).
+    + destruct (rq_cert rq) as [ct|].
+      * rewrite tls_subject_matches_b_iff. split; [intros [H1 H2]; split; auto; exists ct; auto|].
+        intros (H1 & ct' & (_ & E) & H2). injection E as <-. auto.
+      * split; [intros [_ H]; discriminate | intros (_ & ct & (_ & H) & _); discriminate].
+    + split; [intros [_ H]; discriminate | intros (_ & ct & (H & _) & _); discriminate].
+  - (* self-signed *)
+    rewrite andb_true_iff, N.eqb_eq. unfold presented_cert_b, presented_cert.
+    destruct (ag_cert_func g).
+    + destruct (rq_cert rq) as [ct|].
+      * destruct (registered_keys c rq) as [ks|].
+        -- rewrite existsb_exists. split.
+           ++ intros (H1 & j & Hj & Hf). rewrite !andb_true_iff, negb_true_iff, N.eqb_neq, !N.eqb_eq in Hf.
+              destruct Hf as (F1 & F2 & F3). split; auto. exists ct, ks, j. splits.
+           ++ intros (H1 & ct' & ks' & j & (_ & E) & E2 & Hj & F1 & F2 & F3). injection E as <-. injection E2 as <-.
+              split; auto. exists j. split; auto. rewrite !andb_true_iff, negb_true_iff, N.eqb_neq, !N.eqb_eq. auto.
+        -- split; [intros [_ H]; discriminate | intros (_ & ct' & ks & j & _ & H & _); discriminate].
+      * split; [intros [_ H]; discriminate | intros (_ & ct & ks & j & (_ & H) & _); discriminate].
+    + split; [intros [_ H]; discriminate | intros (_ & ct & ks & j & (H & _) & _); discriminate].
+Qed.
+
+Lemma valid_credential_b_iff g x c rq : valid_credential_b g x c rq = true <-> valid_credential g x c rq.
+Proof.
+  unfold valid_credential_b, valid_credential.
+  rewrite andb_true_iff, identifies_b_iff, method_credential_b_iff. tauto.
+Qed.
